@@ -804,12 +804,10 @@ package server
 // jsonDoc(x): x is one JSON document, an object with a boolean member "ok" (and "err" when ok is false); decided by
 // vcgo's recogniser over the structure of the reply term (literals + pieces whose JSON class is known).
 //@ func jsonString
-//@   assumed
 //@   modifies nothing
-//@   ensures result == jsStr(s)
+//@   ensures [ghost-def.class] result == jsStr(s)
 //@ func OKMessage
 //@   modifies nothing
-//@   requires msg != nil
 //@   ensures [json-reply] msg.OutputType == JSON ==> jsonDoc(result)
 //@ func Server.cmdOUTPUT
 //@   requires msg != nil
